@@ -290,8 +290,23 @@ theorem singleton_setTestSet (op : Op) (a c : TSel) (r : Res) (s1 s2 : Bool) :
     | (cases w <;>
         simp [setTestSet, setRelSetPos, test, relSetPos, relPos, Op.pick, Op.neg, minBegin, maxEnd,
           TSet.leftmost, TSet.rightmost, leftmostScan, rightmostScan, eq_comm])
-    | simp [setTestSet, setRelSetPos, test, relSetPos, relPos, Op.pick, Op.neg, minBegin, maxEnd,
-          TSet.leftmost, TSet.rightmost, leftmostScan, rightmostScan]
+    | (simp [setTestSet, setRelSetPos, test, relSetPos, relPos, Op.pick, Op.neg, minBegin, maxEnd,
+          TSet.leftmost, TSet.rightmost, leftmostScan, rightmostScan] <;> (first | (intro h; exact h.symm) | (intro h h2; exact h h2.symm)))
+
+/-- EQUALS between two sets holds both ways round (since 2026-09: the code checks both inclusions) -/
+theorem set_equals_symm (s t : TSet) (r : Res) (al : Bool) (hs : s.items ≠ []) (ht : t.items ≠ []) :
+    setTestSet (.equals al false) s t r = setTestSet (.equals al false) t s r := by
+  have h1 : s.items.isEmpty = false := by cases hx : s.items with | nil => exact absurd hx hs | cons _ _ => rfl
+  have h2 : t.items.isEmpty = false := by cases hx : t.items with | nil => exact absurd hx ht | cons _ _ => rfl
+  have e1 : setTestSet (.equals al false) s t r = setRelSetPos (.equals al false) s t r := by simp [setTestSet, h1, Op.neg]
+  have e2 : setTestSet (.equals al false) t s r = setRelSetPos (.equals al false) t s r := by simp [setTestSet, h2, Op.neg]
+  rw [e1, e2]
+  simp only [setRelSetPos]
+  rw [Bool.eq_iff_iff]
+  simp only [Bool.and_eq_true, decide_eq_true_eq]
+  constructor
+  · rintro ⟨⟨hl, ha⟩, hb⟩; exact ⟨⟨hl.symm, hb⟩, ha⟩
+  · rintro ⟨⟨hl, ha⟩, hb⟩; exact ⟨⟨hl.symm, hb⟩, ha⟩
 
 /-! ### What does not hold on sets
 
